@@ -122,6 +122,7 @@ def armOf (k : Case) : String :=
 def answer (ws : List String) : String :=
   if ws.head? == some "f" then answerFault ws.tail else
   if ws.head? == some "x" then answerConc ws.tail else
+  if ws.head? == some "j" then answerJoin ws.tail else
   match parseCase ws with
   | none => "bad-case parse"
   | some k =>
